@@ -39,15 +39,15 @@ const TNAMES: [&str; 4] = ["P", "q", "A", "b"];
 fn tidx(t: &str) -> usize { TNAMES.iter().position(|x| *x == t).unwrap() }
 
 impl Seed {
-    fn value(&self, t: usize, i: usize, ver: usize) -> f64 {
+    pub fn value(&self, t: usize, i: usize, ver: usize) -> f64 {
         // off-diagonal of P (index 1) shrinks so that P stays positive definite in every combination
         if t == 0 && i == 1 { return self.base[0][1] * [1.0, -0.5, 0.1][ver]; }
         self.base[t][i] * self.mult[t][ver]
     }
-    fn values(&self, t: usize, vers: &[usize]) -> Vec<f64> { vers.iter().enumerate().map(|(i, &v)| self.value(t, i, v)).collect() }
+    pub fn values(&self, t: usize, vers: &[usize]) -> Vec<f64> { vers.iter().enumerate().map(|(i, &v)| self.value(t, i, v)).collect() }
     fn p_csc(&self, nz: &[f64]) -> CscMatrix<f64> { CscMatrix::new(2, 2, vec![0, 1, 3], vec![0, 0, 1], nz.to_vec()) }
     fn a_csc(&self, nz: &[f64]) -> CscMatrix<f64> { CscMatrix::new(3, 2, vec![0, 2, 3], vec![self.a_rows[0], self.a_rows[1], self.a_rows[2]], nz.to_vec()) }
-    fn problem(&self, data: &[Vec<usize>; 4], equil: bool) -> Problem {
+    pub fn problem(&self, data: &[Vec<usize>; 4], equil: bool) -> Problem {
         let P = self.p_csc(&self.values(0, &data[0]));
         let A = self.a_csc(&self.values(2, &data[2]));
         Problem { P: Csc::from_clarabel(&P), q: self.values(1, &data[1]), A: Csc::from_clarabel(&A), b: self.values(3, &data[3]),
